@@ -10,7 +10,8 @@ EXTENDS Dataflow
 
 CONSTANTS MaxC,      \* number of source/compute nodes (a recorder is appended)
           Horizon,   \* cycles 1..Horizon
-          Starts     \* set of start times
+          Starts,    \* set of start times
+          Rich       \* TRUE: every tick history and timer period; FALSE: the two-history family (keeps MaxC = 4 tractable)
 
 Nd(kind, ins, k, cnt, script) ==
     [kind |-> kind, k |-> k, cnt |-> cnt, ins |-> ins, script |-> script, bind |-> 0, init |-> -1, cap |-> 0]
@@ -22,8 +23,10 @@ Scripts == { << <<1, 1>> >>,
              << <<1, 1>>, <<2, 2>>, <<3, 3>> >>,
              << <<3, 7>> >> }
 
-Sources == {Nd("src", <<>>, 0, 0, sc) : sc \in Scripts}
-           \cup {Nd("timer", <<>>, p, 2, <<>>) : p \in {1, 2}}
+ScriptsSmall == { << <<1, 2>>, <<2, 3>> >>, << <<2, 5>>, <<4, 1>> >> }
+
+Sources == {Nd("src", <<>>, 0, 0, sc) : sc \in IF Rich THEN Scripts ELSE ScriptsSmall}
+           \cup {Nd("timer", <<>>, p, 2, <<>>) : p \in IF Rich THEN {1, 2} ELSE {1}}
 
 Unary(j) == {Nd(kind, <<a>>, 0, 0, <<>>) : kind \in {"pass", "acc", "count"}, a \in 1..(j - 1)}
             \cup {Nd("add", <<a>>, 1, 0, <<>>) : a \in 1..(j - 1)}
